@@ -293,7 +293,7 @@ func runC18(c *Ctx) {
 		}
 	}
 	// ---- handler objects are per connection (their ReplyBody/Parse write the receiver from the connection's writer goroutine)
-	if mk := c.P.Method("service", "GoJT808", "createDefaultHandle"); mk != nil {
+	if mk := c.NamedFunc("service", "createDefaultHandle"); mk != nil {
 		c.perConnectionHandlers(mk)
 	} else {
 		R.Fatal("anchor GoJT808.createDefaultHandle not found")
